@@ -1372,6 +1372,11 @@ static Type check_expression_impl(ASTNode *expr, Environment *env) {
                                 strcmp(array_arg->as.call.name, "bytes_from_string") == 0) {
                                 return TYPE_U8;
                             }
+                            /* A user function declared -> array<T>: the element type is T */
+                            Function *callee = env_get_function(env, array_arg->as.call.name);
+                            if (callee && callee->return_type == TYPE_ARRAY && callee->return_element_type != TYPE_UNKNOWN) {
+                                return callee->return_element_type;
+                            }
                         }
                     }
                     return TYPE_INT;  /* Default fallback */
@@ -1828,6 +1833,14 @@ static Type check_expression_impl(ASTNode *expr, Environment *env) {
                             }
                         }
                         
+                        /* Propagate the parameter's element type to an (empty) array literal argument, as let and
+                         * set do: (f []) with f(v: array<string>) was transpiled as an empty array<int> */
+                        if (arg->type == AST_ARRAY_LITERAL && func->params[i].type == TYPE_ARRAY &&
+                            func->params[i].element_type != TYPE_UNKNOWN &&
+                            arg->as.array_literal.element_type == TYPE_UNKNOWN) {
+                            arg->as.array_literal.element_type = func->params[i].element_type;
+                        }
+
                         if (!is_opaque_param && !is_opaque_arg && !types_match(arg_type, func->params[i].type)) {
                             char message[256];
                             snprintf(message, sizeof(message),
@@ -1912,6 +1925,12 @@ static Type check_expression_impl(ASTNode *expr, Environment *env) {
                         if (strcmp(array_arg->as.call.name, "file_read_bytes") == 0 ||
                             strcmp(array_arg->as.call.name, "bytes_from_string") == 0) {
                             return TYPE_U8;
+                        }
+
+                        /* A user function declared -> array<T>: the element type is T */
+                        Function *callee = env_get_function(env, array_arg->as.call.name);
+                        if (callee && callee->return_type == TYPE_ARRAY && callee->return_element_type != TYPE_UNKNOWN) {
+                            return callee->return_element_type;
                         }
 
                         /* array_slice(arr, start, length) preserves element type */
@@ -5283,6 +5302,7 @@ sdef.is_pub = item->as.struct_def.is_pub;            /* Propagate public visibil
             func.params = item->as.function.params;
             func.param_count = item->as.function.param_count;
             func.return_type = return_type;
+            func.return_element_type = item->as.function.return_element_type;  /* array<T> returns (nested functions already record it) */
             func.return_type_info = NULL;
             func.return_struct_type_name = item->as.function.return_struct_type_name;
             func.return_fn_sig = item->as.function.return_fn_sig;  /* Store function signature for TYPE_FUNCTION returns */
@@ -6000,6 +6020,7 @@ sdef.is_pub = item->as.struct_def.is_pub;            /* Propagate public visibil
                 f.params[j].fn_sig = item->as.function.params[j].fn_sig;
             }
             f.return_type = item->as.function.return_type;
+            f.return_element_type = item->as.function.return_element_type;
             f.return_struct_type_name = item->as.function.return_struct_type_name ? 
                 strdup(item->as.function.return_struct_type_name) : NULL;
             f.return_fn_sig = item->as.function.return_fn_sig;
